@@ -76,8 +76,12 @@ def sources(work, tag, text):
         fh.write(text.encode('utf-8'))
     with gzip.open(pg, 'wb') as fh:
         fh.write(text.encode('utf-8'))
+    p16 = os.path.join(work, tag + '.utf16.dat')
+    with open(p16, 'w', encoding='utf-16') as fh:
+        fh.write(text)
     return [
         ('path', lambda: p), ('gz-path', lambda: pg),
+        ('text-file-utf16', lambda: open(p16, 'r', encoding='utf-16')),
         ('text-file', lambda: open(p, 'r', encoding='utf-8')), ('binary-file', lambda: open(p, 'rb')),
         ('StringIO', lambda: io.StringIO(text)), ('BytesIO', lambda: io.BytesIO(text.encode('utf-8'))),
         ('gzip-text-stream', lambda: gzip.open(pg, 'rt', encoding='utf-8')), ('gzip-binary-stream', lambda: gzip.open(pg, 'rb')),
@@ -208,11 +212,13 @@ def decision_table(work):
             out.append({'mode': mode, 'arg': ['str', nm], 'obs': obs})
     p = os.path.join(d, 'plain')
     streams = {
-        'text': [lambda: open(p, 'r'), lambda: io.StringIO('x'), lambda: gzip.open(os.path.join(d, 'a.gz'), 'rt')],
+        'text': [lambda: open(p, 'r'), lambda: io.StringIO('x'), lambda: gzip.open(os.path.join(d, 'a.gz'), 'rt'),
+                 lambda: open(p, 'r', encoding='latin-1'), lambda: open(p, 'r', encoding='utf-16')],
         'binary': [lambda: open(p, 'rb'), lambda: io.BytesIO(b'x'), lambda: gzip.open(os.path.join(d, 'a.gz'), 'rb'), lambda: open(p, 'rb', buffering=0)],
     }
     wstreams = {
-        'text': [lambda: open(os.path.join(d, 'w1'), 'w'), lambda: io.StringIO(), lambda: gzip.open(os.path.join(d, 'w2.gz'), 'wt')],
+        'text': [lambda: open(os.path.join(d, 'w1'), 'w'), lambda: io.StringIO(), lambda: gzip.open(os.path.join(d, 'w2.gz'), 'wt'),
+                 lambda: open(os.path.join(d, 'w5'), 'w', encoding='latin-1')],
         'binary': [lambda: open(os.path.join(d, 'w3'), 'wb'), lambda: io.BytesIO(), lambda: gzip.open(os.path.join(d, 'w4.gz'), 'wb')],
     }
     for mode, fn, table in (('read', open_text_io_handle_for_reading, streams), ('write', open_text_io_handle_for_writing, wstreams)):
